@@ -789,6 +789,18 @@ func (c *fctx) callStmt(x *ast.CallExpr, n int) (string, string, error) {
 		args = append(args, c.names[c.state])
 		outs = append(outs, c.names[c.state])
 	}
+	if f.rec {
+		if f == c.cfg {
+			args = append(args, "fuel")
+		} else if fe, ok := c.cfg.callFuel[f.goName]; ok {
+			for o, nm := range c.names {
+				fe = strings.ReplaceAll(fe, "${"+o.Name()+"}", nm)
+			}
+			args = append(args, "("+fe+")")
+		} else {
+			return "", "", fmt.Errorf("call of recursive function %s needs a fuel hint", f.goName)
+		}
+	}
 	b.WriteString(c.flush(n))
 	nres := sig.Results().Len()
 	var resName string
